@@ -1,6 +1,6 @@
 import H2V.Model.HpackDec
 import H2V.Spec.Hpack
-import H2V.Props.C11
+import H2V.Props.C11Tables
 /-
   Part B (table level) — the dynamic-table invariant of h2's `Table` (`size` is the sum of the entry
   sizes and never exceeds `max_size`), its preservation by `insert` / `set_max_size`, the
